@@ -191,6 +191,7 @@ class Builder(object):
                 CheckQuotaTask(),
             ]
         )
+        download_pipeline.skippable = True
 
         download_stop_pipeline = Pipeline(
             AppSource(app_session),
